@@ -138,6 +138,9 @@ func loadKnown(path string) ([]knownEntry, error) {
 	return out, sc.Err()
 }
 
+// EvidenceDir overrides <verif>/evidence (mutation catalogue subprocesses).
+var EvidenceDir string
+
 // Finish prints the verdict lines, writes evidence and returns the process exit code.
 func (r *Report) Finish(verifDir string) int {
 	known, err := loadKnown(filepath.Join(verifDir, "known-findings.txt"))
@@ -164,6 +167,9 @@ func (r *Report) Finish(verifDir string) int {
 	seenNT := map[string]bool{}
 	usedKnown := map[string]bool{}
 	evdir := filepath.Join(verifDir, "evidence")
+	if EvidenceDir != "" {
+		evdir = EvidenceDir
+	}
 	_ = os.MkdirAll(evdir, 0o755)
 	// remove stale replay files of this property
 	if old, _ := filepath.Glob(filepath.Join(evdir, r.Property+".violation-*.txt")); old != nil {
